@@ -43,7 +43,13 @@ type C13Plan struct {
 
 type c13 struct{}
 
-func init() { register("C13", c13{}) }
+// classified once, before the harness has made a single library call
+var c13growable map[string]bool
+
+func init() {
+	register("C13", c13{})
+	c13growable = growableState()
+}
 
 var c13Kinds = []string{
 	"commit", "prove", "prove", "verify", "verify-wrong", "ipa-prove", "ipa-verify",
@@ -53,7 +59,7 @@ var c13Kinds = []string{
 	// calls that must fail
 	"transcript-retain", "fail-prove-zero-commitment",
 	"readpoint-mutate", "readscalar-mutate", "prove-mutate-result", "fr-setbigint", "fr-setinterface", "setidentity-mutate",
-	"results-mutate", "fr-exp",
+	"results-mutate", "fr-exp", "proof-read-reuse", "decode-trust-sequence",
 	"fail-prove-len", "fail-prove-zero", "fail-prove-polylen", "fail-verify-len", "fail-verify-shape", "fail-ipa-verify-shape", "fail-batchnorm-zero", "fail-read-short", "fail-decode-noncanonical", "fail-msm-len",
 }
 
@@ -121,6 +127,7 @@ type arena struct {
 	IPAProof ipa.IPAProof
 	IPAEval fr.Element
 	IPARes  fr.Element
+	NonSubgroup []byte // encoding of an on-curve point outside the prime-order subgroup
 	BigInts []*big.Int // caller-owned integers: in range, >= r, negative, r itself, 0
 	// caller-owned opening lists (statements), passed to the prover as they are
 	Stmts []*c13stmt
@@ -193,6 +200,7 @@ func buildArena(seed uint64) *arena {
 		a.BufBad = append(a.BufBad, le32(bad))
 		a.Labels = append(a.Labels, []byte(genLabel(r)+"L"))
 	}
+	a.NonSubgroup = be32(findX(r, "non-subgroup"))
 	a.BigInts = []*big.Int{
 		r.Scalar(),
 		new(big.Int).Add(refmodel.R, big.NewInt(5)),
@@ -350,6 +358,27 @@ func zeroPrints() map[string]uint64 {
 	return out
 }
 
+// growableState: package-level variables that are empty when the history starts (zero value,
+// nil or empty map/slice): caches, memo tables, lazily built tables. The property is about the
+// library's constants and about results not depending on history; a private cache that fills up
+// is neither, so changes of such variables are tolerated and the history-independence checks
+// (probes before/after, every call replayed at the end) decide. Anything that holds data at the
+// start (labels, moduli, generator, curve parameters, tables) is strict.
+func growableState() map[string]bool {
+	out := map[string]bool{}
+	for k, v := range c13globals() {
+		rv := reflect.ValueOf(v).Elem()
+		if skipType(rv.Type()) || exportedVar(k) {
+			continue
+		}
+		// holds no data: equal to its type's zero value up to nil-vs-empty containers
+		if LaxFingerprint(v) == LaxFingerprint(reflect.New(rv.Type()).Interface()) {
+			out[k] = true
+		}
+	}
+	return out
+}
+
 func exportedVar(k string) bool {
 	for i := len(k) - 1; i >= 0; i-- {
 		if k[i] == '.' {
@@ -472,6 +501,44 @@ func doCall(a *arena, c C13Call) (out string, failed bool) {
 			id.Add(&id, &scribble)
 			return digest(before, p.Bytes(), g.Bytes(), id.Bytes()), false
 		}
+	case "proof-read-reuse":
+		// a proof value is copied (by value: the copy shares nothing it should not) and the
+		// original receiver is then reused for another Read
+		var p multiproof.MultiProof
+		k := pick(nProofs, c.A)
+		if err := p.Read(bytes.NewReader(a.ProofBytes[k])); err != nil {
+			return digest("err"), true
+		}
+		saved := p
+		if err := p.Read(bytes.NewReader(a.ProofBytes[(k+1)%nProofs])); err != nil {
+			return digest("err"), true
+		}
+		var b1, b2 bytes.Buffer
+		saved.Write(&b1)
+		p.Write(&b2)
+		if !bytes.Equal(b1.Bytes(), a.ProofBytes[k]) {
+			return "ALIASED-RESULT", false
+		}
+		return digest(b1.Bytes(), b2.Bytes()), false
+	case "decode-trust-sequence":
+		// untrusted, trusted, untrusted decoding of the same bytes: the verdict of the untrusted
+		// decoder must not depend on what was decoded before
+		buf := a.NonSubgroup
+		if c.Flag {
+			buf = a.Buf32[pick(nElems, c.A)]
+		}
+		var e1, e2, e3 banderwagon.Element
+		err1 := e1.SetBytes(buf)
+		err2 := e2.SetBytesUnsafe(buf)
+		err3 := e3.SetBytes(buf)
+		var u banderwagon.Element
+		var ub [64]byte
+		if err2 == nil {
+			ub = e2.BytesUncompressedTrusted()
+		}
+		err4 := u.SetBytesUncompressed(ub[:], true)
+		err5 := u.SetBytesUncompressed(ub[:], false)
+		return digest(err1 != nil, err2 != nil, err3 != nil, err4 != nil, err5 != nil), err1 != nil
 	case "fr-exp":
 		var e fr.Element
 		exps := []int{0, 1, 3, 5}
@@ -901,8 +968,7 @@ func (c13) Exec(plan interface{}) Result {
 		light0, tab0 := configPrint(cfg, -1)
 		o.fullTableHashes++
 		glob0 := globalsPrint()
-		zero0 := zeroPrints()
-		lazyDone := map[string]bool{}
+		growable := c13growable
 		ap := a.print()
 		raw := a.rawValues()
 		check := func(i int, c C13Call, after string) (bool, c13out) {
@@ -916,13 +982,8 @@ func (c13) Exec(plan interface{}) Result {
 			g := globalsPrint()
 			for k, v := range g {
 				if glob0[k] != v {
-					// An unexported variable that still had its zero value and is set ONCE is lazy
-					// initialisation of private state (a sync.Once-guarded table, say): the property
-					// is about constants and about results not depending on history, which the
-					// probes below check. Anything else - an exported variable, a variable that was
-					// already initialised, a second change - is a violation.
-					if !exportedVar(k) && glob0[k] == zero0[k] && !lazyDone[k] {
-						lazyDone[k] = true
+					// private state that was empty when the history started (see growableState)
+					if growable[k] {
 						glob0[k] = v
 						o.lazyInits++
 						continue
@@ -977,6 +1038,9 @@ func (c13) Exec(plan interface{}) Result {
 			digests = append(digests, d)
 			if failed {
 				o.failedCalls++
+			}
+			if d == "ALIASED-RESULT" {
+				return fail("aliased-result", "call %d (%s): a proof value copied from a receiver changed when the receiver was reused for another Read (the decoded L/R arrays are shared)", i, c.Kind)
 			}
 			if d == "RETAINS-CALLER-BUFFER" {
 				return fail("retains-caller-buffer", "call %d (%s): the transcript's challenge changes when the caller overwrites its label/message/scalar/point buffers AFTER they were absorbed: the transcript kept a reference instead of a copy", i, c.Kind)
@@ -1034,7 +1098,7 @@ func (c13) Exec(plan interface{}) Result {
 		return mergeViolation(res, got.class, "%s", got.detail)
 	}
 	if got.lazyInits > 0 {
-		res.note("lazy-init-of-private-package-state-tolerated")
+		res.note("private-package-state-change-tolerated")
 	}
 	res.Nontrivial = true
 	res.OK = true
